@@ -357,7 +357,7 @@ func (s *ReplaySpec) Witness() string {
 	if s.Method != "" {
 		m = " " + s.Method
 	}
-	return fmt.Sprintf("src=%s cfg=%s rel=%s%s binding: %s", s.Src, ConfigName(s.Mask, s.Ev, s.Costs), s.Rel, m, strings.Join(parts, " "))
+	return fmt.Sprintf("src=%s cfg=%s rel=%s%s binding: %s", escSrc(s.Src), ConfigName(s.Mask, s.Ev, s.Costs), s.Rel, m, strings.Join(parts, " "))
 }
 
 // ---------------------------------------------------------------- running the harness
@@ -423,6 +423,14 @@ func runReplays(env *core.Env, dir string, specs []*ReplaySpec) (map[int]*Replay
 	return res, cmdline, string(o), nil
 }
 
+// escSrc keeps a source text on one line (witness lines, obligation names).
+func escSrc(s string) string {
+	if len(s) > 400 {
+		s = s[:400] + "…"
+	}
+	return strings.NewReplacer("\n", "\\n", "\t", "\\t", "\r", "\\r").Replace(s)
+}
+
 func sanitizeName(s string) string {
 	s = regexp.MustCompile(`[^A-Za-z0-9_.@=-]+`).ReplaceAllString(s, "_")
 	if len(s) > 100 {
@@ -437,6 +445,9 @@ func (cx *Checker) specOf(o *core.Obl) *ReplaySpec {
 	if err := json.Unmarshal([]byte(o.ReplayData["spec"]), &spec); err != nil {
 		return nil
 	}
+	if o.Query == "" {
+		return &spec // concrete obligation: the spec already carries its input
+	}
 	vals := cx.values[o.Name]
 	if vals == nil && o.ReplayData["values"] != "" {
 		vals = strings.Split(o.ReplayData["values"], "\n")
@@ -445,7 +456,7 @@ func (cx *Checker) specOf(o *core.Obl) *ReplaySpec {
 	return &spec
 }
 
-var concreteReplay = map[string]bool{"wf": true, "boundary-compile": true, "boundary-run": true, "compile-calls": true, "directive=options": true,
+var concreteReplay = map[string]bool{"conform": true, "wf": true, "boundary-compile": true, "boundary-run": true, "compile-calls": true, "directive=options": true,
 	"ev-dump": true, "redump-compiles": true, "redump-text": true}
 
 // ReplayAll replays every refuted obligation that has a model, in batches.
